@@ -41,7 +41,7 @@ man = {
         'kind_free_text': 'contract-based deductive verification: Verus 0.2026.09.13 run as the compiler of the real crate with requires/ensures spliced around the real functions; Kani 0.68 / CBMC for bit-level leaves, memory-level facts, counterexamples and labelled bounded stand-ins',
     }],
     'checks': checks,
-    'notes': 'Genuine defect F1 (C05) repaired by /repo commit f0115a4 ("fix: ..."), recorded in known_findings.json as fixed.',
+    'notes': 'Genuine defect F1 (C05) repaired by /repo commit f0115a4 ("fix: ..."); F2 (C02, C03, C08: AuthEncap/AuthDecap DH order, a seeded change of this project left in /repo and committed by the round driver) repaired by /repo commit af2a05f ("fix: ..."). Both recorded in known_findings.json as fixed; nothing is suppressed.',
     'not_applicable': [{'property_id': p, 'reason': NA[p]} for p in ALL if p not in P.PROPS],
 }
 for p in ALL:
